@@ -2,8 +2,8 @@ package harness
 
 import (
 	"fmt"
-	"strings"
 	"strconv"
+	"strings"
 
 	z "github.com/Oudwins/zog"
 	"github.com/Oudwins/zog/conf"
